@@ -48,6 +48,19 @@ func (s c01S) Iface(x fmt.Stringer) string       { return "iface" }
 func (s c01S) Two() (int, int)                   { return 1, 2 }
 func (s c01S) None()                             {}
 
+// a struct that reaches fields and methods through an embedded pointer (which may be nil)
+type c01EmbInner struct{ X string }
+
+func (b *c01EmbInner) PVal() string { return "pval" }
+
+type c01Emb struct {
+	*c01EmbInner
+	Y string
+}
+
+// comparable by type, but not by value: the interface field may hold a slice
+type c01AnyField struct{ F any }
+
 type c01Err struct{ msg string }
 
 func (e c01Err) Error() string { return e.msg } // value receiver: a nil *c01Err is an error value that cannot be asked
@@ -90,6 +103,9 @@ func c01Universe(variant int) pongo2.Context {
 		// maps with unusual key types, and values that are almost (but not) keys of them
 		"arrmap": map[[2]int]string{{1, 2}: "pair"}, "i64map": map[int64]string{1: "one"}, "nsmap": map[ZStrStr]int{"k": 1}, "ptrmap": map[*int]int{pone: 1}, "pi": pone, "nilpi": (*int)(nil), "psmap": map[*c01S]string{}, "errmap": map[error]int{}, "anymap": map[any]int{"k": 1, 2: 2},
 		"ifmap": map[fmt.Stringer]int{ZIntStr(1): 1}, "sl1": []int{7}, "sl2": []int{1, 2}, "arr2": [2]int{1, 2}, "i64": int64(1), "ns": ZStrStr("k"),
+		// fields promoted through a nil embedded pointer; values whose type is comparable / hashable but whose content is not
+		"embnil": c01Emb{Y: "y"}, "pembnil": &c01Emb{Y: "y"}, "emb": c01Emb{c01EmbInner: &c01EmbInner{X: "x"}, Y: "y"},
+		"ucmp": [1]any{[]int{1}}, "ukey": c01AnyField{F: []int{1}}, "ulist": []any{c01AnyField{F: []int{1}}, [1]any{map[string]int{}}},
 		// a context key that clashes with a macro exported by a helper file
 		"imp_box": "clash", "selfname": "/root.tpl",
 	}
@@ -110,7 +126,7 @@ var c01Names = func() []string {
 }()
 
 var c01Steps = []string{".Name", ".priv", ".In", ".PIn", ".Nilp", ".Any", ".M", ".F", ".privf", ".Hello", ".PHello", ".Var", ".Val", ".Iface", ".Two", ".None", ".A", ".b", ".List", ".0", ".1", ".5",
-	".99999999999", ".a", ".k", ".version", ".Counter", ".String", ".V", ".Year", ".UTC", ".Super", ".Parentloop", ".Ch"}
+	".99999999999", ".a", ".k", ".version", ".Counter", ".String", ".V", ".Year", ".UTC", ".Super", ".Parentloop", ".Ch", ".X", ".Y", ".F"}
 
 var c01Lits = []string{"0", "1", "2", "5", "1.5", `"a"`, `""`, `"1:2"`, `"-1:"`, `":"`, `"%d"`, `"%s"`, `"%99999d"`, `"-2000000000"`, `"-40000000"`, `"-1001"`, "-2000000000", `"2000000000"`, `"a,b"`, `"a,b,c,d"`, `"b"`, "true", "false", `"é"`, `"\\"`,
 	// resource-hungry requests: every one must end in an error or a bounded result, not in gigabytes
@@ -119,6 +135,7 @@ var c01Lits = []string{"0", "1", "2", "5", "1.5", `"a"`, `""`, `"1:2"`, `"-1:"`,
 	`i|add:i64max`, `i64min|add:i64min`, `2000000000 ^ 2000000000`, `str|linenumbers|linenumbers|linenumbers`, `i|divisibleby:0`, `u64max|get_digit:1`, `i64min|get_digit:1`, `inf|floatformat:3`, `nan|floatformat`, `inf|integer`, `nan|integer`,
 	// ready-made operand pairs of one kind (two random names rarely are): time comparisons, membership in structs and maps
 	"tm < tm", "tm >= tm", "tm == tm", "tm != tm", "tm > tm", "tm <= tm", `"Name" in s`, `"priv" in s`, "1 in im", `"k" in sm`, "nili in sm", "f in fm", "t in bm", "u8 in um", "s in sl", "nili in sl", "pi in ptrmap", "nilpi in ptrmap", "sp in psmap", "nilp in psmap", "err in errmap", "nilerr in errmap", "sl in anymap", "mm in anymap", "[1, 2] in anymap", "anymap[sl]", "anymap[[1, 2]]", "anymap[mm]", "anymap[fn]",
+	"ucmp == ucmp", "ukey == ukey", "ukey != ucmp", "ukey in ulist", "ucmp in ulist", "anymap[ukey]", "anymap[ucmp]", "am[ukey]", "ukey in anymap", "embnil.X", `embnil["X"]`, `"X" in embnil`, "pembnil.X", "embnil.PVal", "emb.X", "embnil.Y",
 	"7 % 0.5", "7 % f32", "i % tiny", "2 ^ (-1)", "2 ^ neg", "0 ^ neg", "neg ^ 0.5", "i64min / neg", "i64min % neg"}
 
 // ---- case: a program (generated or assembled), optionally mutated at token level ---------
